@@ -26,6 +26,7 @@ func (r SatResult) String() string { return [...]string{"sat", "unsat", "unknown
 
 type SolverStats struct {
 	Sat, Unsat, Unknown int
+	Retries             int
 	Time                time.Duration
 	Errors              []string
 }
@@ -218,36 +219,29 @@ func (s *Solver) Check(extra *Term, wantModel []*Term) (SatResult, map[*Term]*bi
 		s.send("(push 1)")
 		s.send("(assert %s)", r)
 	}
-	s.send("(check-sat)")
 	res := Unknown
-	for {
-		line, err := s.readLine()
-		if err != nil {
-			s.Stats.Errors = append(s.Stats.Errors, "solver died: "+err.Error())
-			s.Stats.Unknown++
-			s.Close()
-			s.start()
-			return Unknown, nil
+	for attempt := 0; attempt < 2; attempt++ {
+		if attempt == 1 {
+			// one retry with a larger budget: a loaded machine makes z3 hit its
+			// wall-clock timeout on otherwise easy queries
+			if s.bin == "cvc5" {
+				break
+			}
+			s.Stats.Retries++
+			s.send("(set-option :timeout %d)", 4*s.timeoutMs)
 		}
-		if line == "" {
-			continue
+		res = s.checkSatOnce()
+		if attempt == 1 {
+			s.send("(set-option :timeout %d)", s.timeoutMs)
 		}
-		if strings.HasPrefix(line, "(error") {
-			s.Stats.Errors = append(s.Stats.Errors, line)
-			continue
+		if res != Unknown || s.cmd == nil {
+			break
 		}
-		switch line {
-		case "sat":
-			res = Sat
-		case "unsat":
-			res = Unsat
-		case "unknown", "timeout":
-			res = Unknown
-		default:
-			s.Stats.Errors = append(s.Stats.Errors, "unexpected: "+line)
-			continue
-		}
-		break
+	}
+	if s.cmd == nil {
+		s.Stats.Unknown++
+		s.start()
+		return Unknown, nil
 	}
 	if len(s.Stats.Errors) > 0 && res != Unknown {
 		// an (error ...) line may mean a dropped assertion: inconclusive
@@ -282,6 +276,41 @@ func (s *Solver) Check(extra *Term, wantModel []*Term) (SatResult, map[*Term]*bi
 		s.Stats.Unknown++
 	}
 	return res, model
+}
+
+
+// checkSatOnce sends (check-sat) and reads the verdict.
+func (s *Solver) checkSatOnce() SatResult {
+	s.send("(check-sat)")
+	res := Unknown
+	for {
+		line, err := s.readLine()
+		if err != nil {
+			s.Stats.Errors = append(s.Stats.Errors, "solver died: "+err.Error())
+			s.Close()
+			return Unknown
+		}
+		if line == "" {
+			continue
+		}
+		if strings.HasPrefix(line, "(error") {
+			s.Stats.Errors = append(s.Stats.Errors, line)
+			continue
+		}
+		switch line {
+		case "sat":
+			res = Sat
+		case "unsat":
+			res = Unsat
+		case "unknown", "timeout":
+			res = Unknown
+		default:
+			s.Stats.Errors = append(s.Stats.Errors, "unexpected: "+line)
+			continue
+		}
+		break
+	}
+	return res
 }
 
 // readSexp reads one balanced s-expression from the solver output.
